@@ -1,7 +1,7 @@
 """C10 (selection-set level) — the selected map of selection.rs vs. set semantics on (run, index) keys."""
 ID = "C10"
 SUBMODULES = ["c10s"]          # session-level stream: real Model sessions, see c10s.py / session.py
-EXTRA_PROPS = ["C10Session"]   # session-level theorems (Props/C10Session.lean)
+EXTRA_PROPS = ["C10Session", "SelOpsTables"]   # session-level theorems; the four selection actions as TRANSLATED from src/selection.rs = the model
 N_QUICK, N_THOROUGH = 6000, 300000
 RULE = ("random selection histories (<= 80 ops) over run changes (4 command strings incl. the empty one), clear, batches of "
         "matched items (unique text per (run, index), unique ranks, sorted / --no-sort / --tac lists, optional "
@@ -210,3 +210,4 @@ LEVEL_TEXT = ("Session level (Props/C10Session.lean on the Session transition sy
 LEVEL_NOTE = ("Trusted: Lean kernel + propext/Classical.choice/Quot.sound; the hand-written model of selection.rs/global.rs is tied to "
               "the code only by the differential correspondence; cursor position is an input (C09), the list order of OrderedVec is "
               "assumed (C02); u32 arithmetic is modelled with unbounded naturals.")
+TECHNIQUE += ' + translator tie: act_toggle / act_toggle_all / act_select_all / act_deselect_all translated from src/selection.rs into (guard, scope, operation) triples and proved equal to the model actions (Props/SelOpsTables.lean)'
